@@ -174,6 +174,7 @@ Proof.
   - destruct (find_include fs (n, this, false) p) as [p1 res] eqn:Ef.
     pose proof (find_include_sound_b fs _ _ _ _ Hs Ef) as Hs1.
     destruct res as [f|]; [|apply IH; exact Hs1].
+    destruct (mem_path f (once p1)); [apply IH; exact Hs1|].
     rewrite (run_file_G_eq fs fuel f p1 Hs1).
     destruct (run_file_M fs fuel f p1) as [p2|x] eqn:E; [|split; [reflexivity|discriminate]].
     apply IH. eapply run_file_M_sound_b; [exact Hs1|exact E].
